@@ -4,11 +4,9 @@ import (
 	"context"
 	"fmt"
 	"math/rand/v2"
-	"strings"
 	"sync"
 	"time"
 
-	proto4 "go.sia.tech/core/rhp/v4"
 	"go.sia.tech/core/types"
 	rhp "go.sia.tech/coreutils/rhp/v4"
 	"verif/harness/lab/limitlab"
@@ -114,7 +112,6 @@ func runRHPCase(r *mon.Run, c RHPCase) {
 	var mu sync.Mutex
 	answers, shutdowns, transportErrs := 0, 0, 0
 	var odd []string
-	closeReturned := make(chan struct{})
 	for i, cl := range clients {
 		for j := 0; j < c.PerClient; j++ {
 			wg.Add(1)
@@ -131,15 +128,9 @@ func runRHPCase(r *mon.Run, c RHPCase) {
 					case limitlab.IsShuttingDown(err):
 						shutdowns++
 					case limitlab.IsHostAnswer(err):
+						// whether a handler was *started* after Close returned
+						// is decided by the proxy's after-mark list, not here
 						answers++
-						select {
-						case <-closeReturned:
-							// the RPC was started by this worker before it
-							// could know about Close; it is only suspicious if
-							// it was *started* after Close returned, which the
-							// proxy's after-mark list decides
-						default:
-						}
 					default:
 						transportErrs++
 						if len(odd) < 4 {
@@ -179,7 +170,6 @@ func runRHPCase(r *mon.Run, c RHPCase) {
 		r.Violation("rhp-close-timeout", "rhp.Server.Close did not return within 30 s after every handler had been released", vcase, limitlab.Keys(limitlab.Inventory(rhpOnly)))
 		return
 	}
-	close(closeReturned)
 	countLatency(r, "rhp", p.latency())
 	if m := h.G.Mark(); m != 0 {
 		r.Violation("rhp-close-returned-before-handlers-done", fmt.Sprintf("rhp.Server.Close returned while %d handler calls into Settings/Contractor/Sectors were still in progress", m), vcase, h.G.Labels())
@@ -239,11 +229,6 @@ func runRHPCase(r *mon.Run, c RHPCase) {
 		return
 	}
 	if parked > 0 || shutdowns > 0 {
-		kinds := []string{}
-		for k := range labels {
-			kinds = append(kinds, strings.TrimSuffix(k, ":tagged"))
-		}
 		r.Distinct(fmt.Sprintf("rhp/clients%d/per%d/shut%v/parked%d/refused%v", c.Clients, c.PerClient, c.GateShut, parked, shutdowns > 0))
 	}
-	_ = proto4.SectorSize
 }
